@@ -108,6 +108,9 @@ pub struct Scenario {
     /// sessions only call poll_remote_clients(), never advance_frame() (C12)
     #[serde(default)]
     pub poll_only: bool,
+    /// the games keep their own snapshots and save `None` data with a checksum
+    #[serde(default)]
+    pub own_snapshots: bool,
 }
 
 impl Scenario {
@@ -148,6 +151,7 @@ impl Scenario {
             fine_poll: false,
             drain: true,
             poll_only: false,
+            own_snapshots: false,
         }
     }
 }
